@@ -74,6 +74,11 @@ def execute(case: dict) -> dict:
                 from urllib.parse import unquote
 
                 obs["post"] = sorted((k, v if isinstance(v, str) else ("file", unquote(v.filename), v.file.read())) for k, v in data.items())
+            elif rq.get("handler_reads", "all") == "none" and not request.path.endswith("/second"):
+                obs["body_unread"] = True  # answers without looking at the body (the server then drains or closes)
+            elif rq.get("handler_reads", "all") == "some" and not request.path.endswith("/second"):
+                obs["body_unread"] = True
+                await request.content.read(1)
             else:
                 obs["body"] = await request.read()
             seen.append(obs)
@@ -243,7 +248,7 @@ def execute(case: dict) -> dict:
                         raise Violation("request-header-lost", f"header {k}: {v!r} not seen by the handler: {oh}")
                 if rq.get("cookies") and o["cookies"] != dict(rq["cookies"]):
                     raise Violation("request-cookies", f"sent {rq['cookies']}, handler saw {o['cookies']}")
-                if expect_body is not None and o.get("body") != expect_body:
+                if expect_body is not None and not o.get("body_unread") and o.get("body") != expect_body:
                     raise Violation(f"request-body/{body_kind}", f"sent {len(expect_body)} bytes, handler read {len(o.get('body') or b'')} bytes "
                                     f"(first diff at {_first_diff(expect_body, o.get('body') or b'')})")
                 if expect_post is not None and o.get("post") != expect_post:
@@ -274,10 +279,31 @@ def execute(case: dict) -> dict:
                 for _ in range(5):
                     await asyncio.sleep(0)
                 ct, st_ = conn.transports[0]
+                if seen and seen[0].get("body_unread"):
+                    # the rest of the unread body is still on its way: quiescence = all of it delivered (the server reads and
+                    # drops it while it "lingers") or either side has given up
+                    for _ in range(5000):
+                        if not ct.out or st_.closing or ct.closed:
+                            break
+                        await asyncio.sleep(0)
+                    for _ in range(10):
+                        await asyncio.sleep(0)
                 pooled = any(p.transport is ct for q in conn._conns.values() for p, _t in q)
                 server_open = not st_.closing
                 client_open = not ct.closing
                 box["ka"] = (pooled, server_open, client_open)
+                # the server's own announcement: a response that does not say "close" (HTTP/1.1) / says "keep-alive" (HTTP/1.0)
+                # promises that the connection stays usable, so the server must not be the one that then closes it (no time
+                # has passed: the keep-alive timer cannot have expired, and the whole request has been delivered)
+                conn_tokens = {t.strip().lower() for k, v in got_headers if k.lower() == "connection" for t in v.split(",")}
+                ver = box["first"][4] or (1, 1)
+                announced_ka = ("close" not in conn_tokens) if ver >= (1, 1) else ("keep-alive" in conn_tokens)
+                closers = [name for _seq, name, what, _kw in log if what in ("close", "abort")]
+                if announced_ka and not server_open and closers and closers[0] == st_.name and not ct.out:
+                    raise Violation("server-closed-after-announcing-keepalive",
+                                    f"the response ({got_status}, Connection: {sorted(conn_tokens)}) announced a persistent connection, the request was delivered "
+                                    f"completely, and the server closed the connection first (handler read the body: {rq.get('handler_reads', 'all')}; "
+                                    f"request {rq['method']} {rq['body']} {rq.get('size')}B chunked={rq.get('chunked')})")
                 if pooled != server_open:
                     raise Violation("keepalive-disagreement", f"client pooled the connection={pooled} but server kept it open={server_open} "
                                     f"(client transport open={client_open}; request {rq['method']} http10={rq.get('http10')}, response {rs['status']} {rs['kind']} "
@@ -408,6 +434,8 @@ def cases(draw):
         if body_kind == "agen":
             rq["body"] = "bytes"
     rq["chunked_false"] = (not rq["chunked"]) and draw(st.integers(0, 3)) == 0
+    if body_kind not in ("none", "form", "multipart"):
+        rq["handler_reads"] = draw(st.sampled_from(["all", "all", "all", "none", "some"]))
     if rq["chunked"] and rq["compress"]:
         pass
     status = draw(st.sampled_from([200, 200, 200, 201, 204, 206, 301, 304, 400, 404, 500]))
